@@ -5,13 +5,13 @@ from typing import Any
 
 from autobean_refactor.models import base
 
-from vf.gen import ledger as L, ops as OPS, sweeps
+from vf.gen import ledger as L, ops as OPS, store as GS, sweeps
 from vf.obs import core as O
 from vf.props import common
 from vf.run import Job, Result
 
 ID = 'C05'
-RULE = ('A generated ledger (G1) followed by a state-aware program of 1-10 (quick) / 1-30 (thorough) edits drawn from every family '
+RULE = ('(In 30% of the generated programs the token store works with blocks of 4 instead of 1000 tokens, so that the edits split and merge blocks, the first one included, in small documents.) A generated ledger (G1) followed by a state-aware program of 1-10 (quick) / 1-30 (thorough) edits drawn from every family '
         '(token value, optional / required / custom-optional slot, value-level property, every MutableSequence operation on raw lists, '
         'filtered and string views with every index class, meta mapping operations, spacing, comment claim/unclaim/auto-claim, '
         'deep-copy-and-insert, pop-and-reinsert, in-place arithmetic), with 60% of later operations aimed at nodes that an earlier '
@@ -25,10 +25,22 @@ ASSUMPTIONS = [
     'a history is not continued after a refused or crashed operation (the state after a refusal is C19\'s subject)',
 ]
 SHRINK_LISTS = ('ops', 'dirs')
-REQUIRED_CLASSES = ('through-inserted', 'fam:list', 'fam:view', 'fam:opt', 'fam:val', 'fam:popins', 'fam:copyins', 'popped-node')
+REQUIRED_CLASSES = ('lf:4', 'through-inserted', 'fam:list', 'fam:view', 'fam:opt', 'fam:val', 'fam:popins', 'fam:copyins', 'popped-node')
 
 
 def run_case(case: dict) -> Result:
+    # small store blocks in a share of the cases: the edits then split and merge blocks (the first block included) in small documents
+    old = GS.set_lf(int(case.get('lf', 1000)))
+    try:
+        res = _run_case(case)
+        if not res.discard:
+            res.classes = sorted(set(res.classes) | {'lf:%d' % int(case.get('lf', 1000))})
+        return res
+    finally:
+        GS.restore_lf(old)
+
+
+def _run_case(case: dict) -> Result:
     res = Result()
     root = common.parse_case(case)
     if root is None:
@@ -103,7 +115,14 @@ def _build(tier: str):
     n = 10 if tier == 'quick' else 30
 
     def build(rnd: Any) -> dict:
-        return OPS.build_program(rnd, cfg, common.EDIT_FAMILIES, n, common.parse_file, stick=0.5)
+        lf = 4 if rnd.random() < 0.3 else 1000
+        old = GS.set_lf(lf)
+        try:
+            case = OPS.build_program(rnd, cfg, common.EDIT_FAMILIES, n, common.parse_file, stick=0.5)
+        finally:
+            GS.restore_lf(old)
+        case['lf'] = lf
+        return case
     return build
 
 
